@@ -5,6 +5,7 @@
 package main
 
 import (
+	"encoding/json"
 	"flag"
 	"fmt"
 	"os"
@@ -75,3 +76,5 @@ func envOr(k, d string) string {
 	}
 	return d
 }
+
+func jsonUnmarshal(b []byte, v any) error { return json.Unmarshal(b, v) }
